@@ -25,13 +25,13 @@ MUTANTS = [
     M("c07-intmm-scale", "C07", "break", [(MM, "out_data.to(torch.float32) * output_scales.flatten()", "out_data.to(torch.float32) * output_scales")], "C07.R1"),
     M("c07-intmm-no-scale", "C07", "break", [(MM, "    fp32_output = out_data.to(torch.float32) * output_scales.flatten()\n", "    fp32_output = out_data.to(torch.float32)\n")], "C07.R2"),
     M("c07-int8pack-output-shape", "C07", "break", [(MM, "        output_shape = activations.shape[:-1] + (out_features,)\n        out_data = torch._weight_int8pack_mm", "        output_shape = activations.shape[:-1] + (in_features,)\n        out_data = torch._weight_int8pack_mm")], "C07.R1"),
-    M("c07-linear-drops-act-scale", "C07", "break", [(FUNC, "torch.ops.quanto.qbytes_mm(input._data, other._data, input._scale * other._scale)", "torch.ops.quanto.qbytes_mm(input._data, other._data, other._scale)")], "C07.R2"),
+    M("c07-linear-drops-act-scale", "C07", "break", [(FUNC, "torch.ops.quanto.qbytes_mm(input._data, other._data, output_scales).to(input._scale.dtype)", "torch.ops.quanto.qbytes_mm(input._data, other._data, other._scale)")], "C07.R2"),
     M("c07-linear-double-scale", "C07", "break", [(FUNC, "output = torch.ops.quanto.qbytes_mm(input, other._data, other._scale)", "output = torch.ops.quanto.qbytes_mm(input, other._data, other._scale) * other._scale.t()")], "C07.R2"),
     M("c07-linear-bias-before-scale", "C07", "break", [(FUNC, "                output = torch.ops.quanto.qbytes_mm(input, other._data, other._scale)\n", "                output = torch.matmul(input, other._data.to(input.dtype).t())\n                if bias is not None:\n                    output = output + bias\n                output = output * other._scale.t()\n                bias = None\n")], None),
     M("c07-linear-plain-no-t", "C07", "break", [(FUNC, "            output = torch.matmul(input, other.t())", "            output = torch.matmul(input, other)")], None),
     M("c07-mm-drop-axis-guard", "C07", "break", [(OPS, "            and input.axis in (None, 0)\n            and other.axis in (None, -1)\n", "")], "C07.R1"),
     M("c07-mm-rows-guard", "C07", "break", [(OPS, "            and n > 16\n", "")], "C07.R5"),
-    M("c07-mm-scale-one", "C07", "break", [(OPS, "fp32_output = (input._scale * other._scale).to(torch.float32) * out_data", "fp32_output = input._scale.to(torch.float32) * out_data")], "C07.R2"),
+    M("c07-mm-scale-one", "C07", "break", [(OPS, "fp32_output = input._scale.to(torch.float32) * other._scale.to(torch.float32) * out_data", "fp32_output = input._scale.to(torch.float32) * out_data")], "C07.R2"),
     M("c07-bmm-axis-guard", "C07", "break", [(OPS, "    if not isinstance(other, QTensor) or input.axis is not None:", "    if not isinstance(other, QTensor):")], "C07.R1"),
     M("c07-cuda-threshold", "C07", "break", [(MM, "        and tokens > 16\n", "")], "C07.R5"),
     M("c07-cuda-mult", "C07", "break", [(MM, "        and in_features % 8 == 0\n", "")], "C07.R5"),
@@ -41,7 +41,7 @@ MUTANTS = [
     M("c07-default-result-dtype", "C07", "break", [(MM, "    return outputs.to(output_scales.dtype)", "    return outputs")], "C07.R4"),
     M("c07-pertensor-pack-guard", "C07", "break", [(MM, "        # torch._weight_int8pack_mm expects one scale per output feature\n        and output_scales.numel() == weights.shape[0]\n", "")], "C07.R1"),
     M("c07-refactor-matmul-operator", "C07", "refactor", [(MM, "    outputs = torch.matmul(activations, weights.t()) * output_scales.flatten()", "    outputs = (activations @ weights.t()) * output_scales.flatten()")]),
-    M("c07-refactor-scale-var", "C07", "refactor", [(FUNC, "                output = torch.ops.quanto.qbytes_mm(input._data, other._data, input._scale * other._scale)", "                scales = input._scale * other._scale\n                output = torch.ops.quanto.qbytes_mm(input._data, other._data, scales)")]),
+    M("c07-refactor-scale-var", "C07", "refactor", [(FUNC, "                output_scales = input._scale.to(torch.float32) * other._scale.to(torch.float32)\n                output = torch.ops.quanto.qbytes_mm(input._data, other._data, output_scales).to(input._scale.dtype)", "                scales = input._scale.to(torch.float32) * other._scale.to(torch.float32)\n                output = torch.ops.quanto.qbytes_mm(input._data, other._data, scales).to(input._scale.dtype)")]),
     M("c07-fix-float8-promotion", "C07", "refactor", [(MM, "    if activations.dtype == torch.int8 or weights.dtype == torch.int8:\n        # If one of the terms is an int the matmul might overflow\n        mm_dtype = torch.float32\n", "    mm_dtype = torch.float32\n")]),
     # ---------------- C08
     M("c08-conv-dilation-dropped", "C08", "break", [(QCONV, "            dilation=module.dilation,\n", "")], "C08.R2"),
